@@ -24,7 +24,7 @@ DRIVER = 'Init'
 REQUIRED_THEOREMS = [
     'leaf_default_last_wins', 'leaf_emit_last_wins', 'leaf_value_conflict_raises',
     'leaf_units_conflict_raises', 'leaf_serializer_conflict_raises',
-    'leaf_updater_never_raises', 'leaf_updater_kept', 'divider_never_raises', 'applyDefaults_value', 'setValue_leaf',
+    'leaf_updater_never_raises', 'leaf_updater_kept', 'updateIn_reads_old', 'shared_store_initial_values_kept', 'divider_never_raises', 'applyDefaults_value', 'setValue_leaf',
     'exists_and_value', 'untouched_value', 'establish_reaches_lexical',
     'declared_default_last_wins', 'exists_and_value_generate_partial', 'engineInitial_spec',
     'deepMerge_later_wins', 'composite_given_state_wins',
